@@ -577,9 +577,21 @@ t_ecdsa(const uint8_t *data, size_t len)
 	memcpy(sig, data + off, sl);
 	r = br_ecdsa_asn1_to_raw(sig, sl);
 	if (r != 0 && r >= 2 * sl + 1) fz_viol("status:asn1-to-raw-length", "asn1_to_raw result length beyond the documented bound");
+	if (r <= sl) {
+		/* the result fits the input: repeat on an exact-size block so that any access beyond the
+		   signature is caught by the red zone */
+		unsigned char *ex = vf_dup(data + off, sl);
+		if (br_ecdsa_asn1_to_raw(ex, sl) != r) fz_viol("status:asn1-to-raw-unstable", "asn1_to_raw result depends on the buffer capacity");
+		free(ex);
+	}
 	memcpy(sig, data + off, sl);
 	r = br_ecdsa_raw_to_asn1(sig, sl);
 	if (r > sl + 9) fz_viol("status:raw-to-asn1-length", "raw_to_asn1 enlarged the signature by more than 9 bytes");
+	if (r <= sl) {
+		unsigned char *ex = vf_dup(data + off, sl);
+		if (br_ecdsa_raw_to_asn1(ex, sl) != r) fz_viol("status:raw-to-asn1-unstable", "raw_to_asn1 result depends on the buffer capacity");
+		free(ex);
+	}
 	free(sig);
 	/* verifiers on exact-size copies */
 	sig = vf_dup(data + off, sl);
@@ -1000,6 +1012,17 @@ gen_corpus(void)
 			memcpy(gbuf + o, hv, gbuf[1]); o += gbuf[1];
 			memcpy(gbuf + o, sg, sl2); o += sl2;
 			emit(gbuf, o);
+			if (c == 0 && h == 42) {
+				/* structurally truncated variants: outer length adjusted to each cut point */
+				size_t cut;
+				for (cut = 3; cut < sl2; cut ++) {
+					size_t o2 = 3 + gbuf[1];
+					memcpy(gbuf + o2, sg, cut);
+					gbuf[o2 + 1] = (unsigned char)(cut - 2);
+					emit(gbuf, o2 + cut);
+				}
+				memcpy(gbuf + 3 + gbuf[1], sg, sl2);
+			}
 			sl2 = br_ecdsa_i31_sign_raw(br_ec_get_default(), h == 20 ? &br_sha1_vtable : (h == 42 ? &br_sha256_vtable : &br_sha512_vtable), hv, &sk, sg);
 			o = 3 + gbuf[1];
 			memcpy(gbuf + o, sg, sl2); o += sl2;
